@@ -26,7 +26,7 @@ def floor(tier):
 
 
 def cases(tier, rng):
-    n = 88 if tier == "quick" else 2000
+    n = 88 if tier == "quick" else 10000
     out = []
     rels = ["decouple", "pol", "cc", "flav"]
     ptos = (0, 1, 1, 2) if tier == "quick" else (0, 1, 1, 2, 2, 3)
